@@ -1,23 +1,130 @@
 META = dict(
     engine='seqx+cosched',
     technique='explicit-state model checking: BFS to closure over all reachable contents of the real parsec_hbbuffer_t (sizes 1..4) and all reachable forests of the real scheduler max-heap (insert/remove/split_and_steal over 5-8 tasks with tied priorities) against set models; plus preemption-bounded exhaustive schedule enumeration (CHESS) of concurrent push_all / push_all_by_priority / pop_best on one buffer',
-    level_text='Sequential: for buffer sizes 1..4 and N tasks (N=5,6 quick; 5..8 thorough) every reachable buffer content x every operation (push_all and push_all_by_priority of every ring of <= 3 free tasks at distance 0, single tasks at distance 1/2, pop_best) is executed on the real code: buffer + parent store = pushed - popped as sets, overflow only when the buffer is full, pop_best returns a maximal-priority held task. Every reachable forest of up to 3 heaps over the N tasks x every insert/remove/split_and_steal is executed: every task in exactly one heap or returned exactly once, returned task has the maximal priority, top/priority/size fields right, max-heap order, complete-tree shape. Concurrent: every schedule with <= b preemptions (b=2 quick, 4 thorough) of seven 2-3 thread scripts on buffers of size 1-2 (forced overflow and CAS contention, one ABA seeker): nothing lost or duplicated, then a quiescent drain pops in non-increasing priority.',
+    level_text='Sequential: for buffer sizes 1..4 and N tasks (N=5,6 quick; 5..8 thorough) every reachable buffer content x every operation (push_all and push_all_by_priority of every ring of <= 3 free tasks at distance 0, single tasks at distance 1/2, pop_best) is executed on the real code: buffer + parent store = pushed - popped as sets, overflow only when the buffer is full, pop_best returns a maximal-priority held task. Every reachable forest of up to 3 heaps over the N tasks x every insert/remove/split_and_steal is executed: every task in exactly one heap or returned exactly once, returned task has the maximal priority, top/priority/size fields right, max-heap order, complete-tree shape. Concurrent: every schedule with <= b preemptions (b=2 quick, 4 thorough) of seven hand-written 2-3 thread scripts on buffers of size 1-2 (forced overflow and CAS contention, one ABA seeker), plus GENERATED script families: all scripts pre-state (1-2 slots, 0..size tasks of priority 2) x T0 ops || T1 ops (|| T2) over the alphabet {pop_best, push_all of the oldest task the thread popped, push_all [H] / [H,L], push_all_by_priority [L] / [H] / [H,L] / [H,H] (thorough also [M] = tie)}, minus contract violations, up to thread symmetry - quick: (1,1) at b=2 and (2,1) at b=1 under a wall budget; thorough: (1,1) b=3, (2,1) b=2, (1,1,1) b=1, (2,2) b=2, (3,1) b=2, budget-cut (evidence: scripts generated / filtered / explored): nothing lost or duplicated, then a quiescent drain pops in non-increasing priority.',
     level_note='push_all_by_priority is only given rings in decreasing priority order (its contract). Priority preference under concurrency is not claimed (documented ABA window); sequential consistency at instrumented accesses; <= 3 threads, <= 2 operations per thread.',
 )
 RULE = ("seqx legs: BFS over operation histories on the real objects, states = distinct canonical contents (buffer: slot -> task; heaps: sorted pre-order encodings of every heap), every transition compared with the set model "
-        "(non-trivial = shortest history >= 2 ops); cosched legs: every schedule with at most b preemptions, scheduling points = every instrumented access to the buffer slots (non-trivial = at least one preemption); states = nodes of the explored schedule tree")
+        "(non-trivial = shortest history >= 2 ops); cosched legs (hand-written scripts and every script of the generated families 'family/gen_*': see the leg's spec and scripts_* counters): every schedule with at most b preemptions, scheduling points = every instrumented access to the buffer slots (non-trivial = at least one preemption); states = nodes of the explored schedule tree")
 def build_seq(ctx, nt):
     return ctx.compile('hk-shm', 'hbbseq%d' % nt, ['hbb_seq.c'], instr=False, cflags=['-DNT=%d' % nt])
 def build_conc(ctx):
     return ctx.compile('hk-shm', 'hbbconc', ['hbb_conc.c'], engine='cosched')
+# ---- generated (bounded-exhaustive) script families: see NOTES.md and the comment in hbb_conc.c ----
+# (label, spec, preemption bound, wall budget in s, scripts per engine invocation, order, seconds a started script may always use)
+Q7 = 'ops=pbuUlhQR;pre=01234'      # quick alphabet (8 operations)
+T8 = 'ops=pbuUlmhQR;pre=01234'     # thorough: + m (priority tie)
+FAMILIES = {
+    'quick': [
+        ('gen_11_b3', 'shape=1,1;%s' % Q7, 3, 8, 8, 'seq', 2),
+        ('gen_21_b2', 'shape=2,1;%s' % Q7, 2, 30, 16, 'seq', 1.5),
+    ],
+    'thorough': [
+        ('gen_11_b4', 'shape=1,1;%s' % T8, 4, 30, 16, 'seq', 2),
+        ('gen_21_b3', 'shape=2,1;%s' % T8, 3, 120, 16, 'seq', 2),
+        ('gen_111_b2', 'shape=1,1,1;%s' % Q7, 2, 80, 8, 'seq', 3),
+        ('gen_22_b2', 'shape=2,2;%s' % Q7, 2, 120, 32, 'seq', 1.5),
+        ('gen_31_b2', 'shape=3,1;%s' % Q7, 2, 60, 32, 'spread', 1.5),
+    ],
+}
+
+
+def bitrev_order(n):
+    if n <= 1:
+        return list(range(n))
+    w = (n - 1).bit_length()
+    return [j for j in (int(format(i, '0%db' % w)[::-1], 2) for i in range(1 << w)) if j < n]
+
+
+def gen_family(ctx, exe, label, spec, bound, budget, batch, order, allow, procs, jobs):
+    """Explore one generated family: the harness enumerates it (--gen-list), ranges of it are explored by parallel engine
+    invocations until everything is done or the wall budget is used up; one aggregated evidence leg."""
+    import os, sys, json, subprocess, time, statistics
+    from concurrent.futures import ThreadPoolExecutor
+    from vlib import OUT
+    env = dict(os.environ); env['C35_GEN'] = spec
+    r = subprocess.run([exe, '--gen-list'], env=env, capture_output=True, text=True)
+    if r.returncode != 0:
+        ctx.broken.append('%s: --gen-list failed: %s' % (label, r.stderr[-500:])); return
+    fam = json.loads(r.stdout)
+    n = fam['after_symmetry']
+    t0 = time.time(); t_end = t0 + budget
+    ranges = [(lo, min(n, lo + batch)) for lo in range(0, n, batch)]
+    if order == 'spread':
+        ranges = [ranges[i] for i in bitrev_order(len(ranges))]
+    mine = '%s@' % label
+    nviol0 = len(ctx.violations)
+    def one(rg):
+        left = t_end - time.time()
+        if left < 1.0 or len(ctx.violations) > nviol0:
+            return None                      # budget used up (or a violation is already reported): this range is not explored (exhaustive:false)
+        e = dict(env); e['C35_GEN'] = '%s;range=%d:%d' % (spec, rg[0], rg[1])
+        dl = max(2, int(left), int(allow * (rg[1] - rg[0])))
+        ctx.run_engine(exe, ['--bound', str(bound), '--jobs', str(jobs), '--outdir', OUT, '--deadline', str(dl)], label='%s%d' % (mine, rg[0]), timeout=dl + 300, env=e)
+        return rg
+    with ThreadPoolExecutor(max_workers=procs) as ex:
+        done = [x for x in ex.map(one, ranges) if x]
+    legs = [l for l in ctx.legs if str(l.get('leg', '')).startswith(mine)]
+    ctx.legs[:] = [l for l in ctx.legs if not str(l.get('leg', '')).startswith(mine)]
+    pos = {nm: i for i, nm in enumerate(fam['scripts'])}
+    legs.sort(key=lambda l: pos.get(l['name'], 0))
+    complete = [l for l in legs if l.get('exhaustive')]
+    outs = [int(l.get('distinct_outcomes', 0)) for l in (complete or legs)]      # outcome statistics over the scripts that completed their bound
+    samples = []
+    for l in sorted(legs, key=lambda l: -int(l.get('distinct_outcomes', 0)))[:2] + legs[:1]:
+        for sm in l.get('samples', [])[:1]:
+            samples.append(dict(sm, script=l['name']))
+    nex = sum(int(l.get('executions', 0)) for l in legs)
+    ctx.add_leg(name=label, leg='family', engine='cosched', spec=spec, bound=bound, order=order,
+                alphabet=fam['alphabet'], scripts_generated=fam['generated'], scripts_after_contract=fam['after_contract'],
+                scripts_after_relevance=fam['after_relevance'], scripts_after_symmetry=n,
+                scripts_explored=len(legs), scripts_completed=len(complete),
+                states=sum(int(l.get('states', 0)) for l in legs), transitions=sum(int(l.get('transitions', 0)) for l in legs),
+                executions=nex, nontrivial=sum(int(l.get('nontrivial', 0)) for l in legs),
+                distinct_outcomes=sum(outs), outcomes_per_script=dict(min=min(outs), median=statistics.median(outs), max=max(outs)) if outs else {},
+                single_outcome_scripts=sum(1 for o in outs if o <= 1), max_points=max([int(l.get('max_points', 0)) for l in legs] or [0]),
+                exhaustive=(len(complete) == n), violations=sum(int(l.get('violations', 0)) for l in legs),
+                explored_ranges=[list(x) for x in sorted(done)] if order == 'spread' else [[0, max([x[1] for x in done] or [0])]],
+                wall_s=round(time.time() - t0, 2), samples=samples)
+    sys.stderr.write('C35 family %s (bound %d): %d generated, %d after contract, %d after relevance, %d after symmetry; explored %d (complete %d), %d schedules, outcomes/script min %s max %s, %d single-outcome, %.1fs\n'
+                     % (label, bound, fam['generated'], fam['after_contract'], fam['after_relevance'], n, len(legs), len(complete),
+                        nex, min(outs) if outs else '-', max(outs) if outs else '-', sum(1 for o in outs if o <= 1), time.time() - t0))
+    # vacuity guard: a family whose scripts all have a single outcome collides with nothing
+    if legs and max(outs) <= 1 and not sum(int(l.get('violations', 0)) for l in legs):
+        ctx.broken.append('%s: every script of the family has a single outcome: the alphabet collides with nothing' % label)
+
+
+def families(ctx, exe):
+    import os
+    from vlib import NJOBS
+    procs = max(1, min(8, NJOBS)); jobs = max(1, min(2, NJOBS // procs))      # 16 cores: 8 invocations x 2 workers
+    fams = FAMILIES[ctx.tier]
+    if os.environ.get('C35_FAMILIES'):     # development: "label|spec|bound|budget|batch|order|allow;;..."
+        fams = [(a, b, int(c), float(d), int(e), f, float(g)) for a, b, c, d, e, f, g in (x.split('|') for x in os.environ['C35_FAMILIES'].split(';;'))]
+    # quick tier on a loaded machine: when the legs before took long, the family budgets shrink (down to 40 %: fewer batches are started; a started script always gets its 'allow') so that the tier stays bounded;
+    # the evidence then shows scripts_explored < scripts_after_symmetry
+    import time
+    scale = 1.0 if ctx.tier != 'quick' else min(1.0, max(0.4, (95.0 - (time.time() - ctx.t0)) / 40.0))
+    for label, spec, bound, budget, batch, order, allow in fams:
+        gen_family(ctx, exe, label, spec, bound, budget * scale, batch, order, allow, procs, jobs)
+
+
 def check(ctx):
+    import os
     quick = ctx.tier == 'quick'
-    for nt in ([5, 6] if quick else [5, 6, 7, 8]):
-        ctx.run_engine(build_seq(ctx, nt), ['--outdir', '/verif/out', '--deadline', '600'] + ([] if quick else ['--thorough']), label='hbbseq%d' % nt, timeout=1200)
-    ctx.run_cosched(build_conc(ctx), 2 if quick else 4, deadline=(100 if quick else 900), label='hbbconc')
+    only = os.environ.get('C35_ONLY', '')        # development switch: 'gen' = generated families only, 'hand' = hand-written scripts only, 'seq' = sequential legs only
+    if only in ('', 'seq'):
+        for nt in ([5, 6] if quick else [5, 6, 7, 8]):
+            ctx.run_engine(build_seq(ctx, nt), ['--outdir', '/verif/out', '--deadline', '600'] + ([] if quick else ['--thorough']), label='hbbseq%d' % nt, timeout=1200)
+    exe = build_conc(ctx)
+    if only in ('', 'hand'):
+        ctx.run_cosched(exe, 2 if quick else 4, deadline=(100 if quick else 500), label='hbbconc')
+    if only in ('', 'gen'):
+        families(ctx, exe)
     return ctx.finish(RULE, ["sequential consistency at instrumented accesses (no weak-memory effects)",
                              "push_all_by_priority receives rings sorted by decreasing priority (its contract)",
-                             "the max-heap is used sequentially (documented: not thread safe, protected by the upper level)"])
+                             "the max-heap is used sequentially (documented: not thread safe, protected by the upper level)",
+                             "generated families: a wall budget bounds each family; scripts_explored < scripts_after_symmetry means the family was cut (exhaustive:false for that leg)"])
 def replay(ctx, path, obj):
     import subprocess, re
     if obj.get('engine') == 'seqx':
